@@ -417,6 +417,24 @@ func (q *c08Seq) doReopen() {
 	q.opLine("reopen", res)
 }
 
+// doPushFail makes the part file unwritable (a directory sits at its path) and pushes: an I/O error
+// inside Push must not leave a record behind.
+func (q *c08Seq) doPushFail(b bpv7.Bundle) {
+	name := bundlePartPath(b.ID(), filepath.Join(q.dir, dirBundle))
+	if err := os.Mkdir(name, 0700); err != nil {
+		q.doPush(b) // the file exists already
+		return
+	}
+	desc := "pushfail" + strings.TrimPrefix(q.pushDesc(b), "push")
+	res := "panic"
+	func() {
+		defer func() { _ = recover() }()
+		res = c08Res(q.store.Push(b))
+	}()
+	_ = os.Remove(name)
+	q.opLine(desc, res)
+}
+
 // doJunk leaves a file as a torn write of a killed process would (not referenced by the index).
 func (q *c08Seq) doJunk(b bpv7.Bundle, data []byte) {
 	q.register(b)
@@ -507,7 +525,13 @@ func (q *c08Seq) randomOp(reopens *int) {
 		q.doSweep()
 	case k < 90:
 		q.doQuery(f)
-	case k < 94 && *reopens > 0:
+	case k < 93:
+		if q.r.intn(2) == 0 {
+			q.doPushFail(f.bundle(nil))
+		} else {
+			q.doPushFail(f.bundle(q.randFrag(f)))
+		}
+	case k < 96 && *reopens > 0:
 		*reopens--
 		q.doReopen()
 	default:
